@@ -285,7 +285,7 @@ def _setup(opts, alias):
         core.assume(lam > 0)
     proxg = GProx(sp, 2 if has_G else 0, ["n2" if has_G else "n0"]) if opts["proxg"] else None
     kw = dict(x=x, proxg=proxg, lamda=lam, G=G, z=z, solver=opts["solver"], show_pbar=False)
-    for nm in ("P", "alpha", "tau", "sigma"):
+    for nm in ("P", "alpha", "tau", "sigma", "rho"):
         if opts.get(nm):
             if nm == "P":
                 kw["P"] = Lin.named(sp, "P", 0, 0)
@@ -632,7 +632,7 @@ def jobs(tier):
             elif eff == "PrimalDualHybridGradient":
                 extras = [(), ("tau",), ("sigma",), ("tau", "sigma")]
             elif eff == "ADMM":
-                extras = [(), ("P",)]
+                extras = [(), ("P",), ("rho",)]           # a user-supplied penalty parameter (default 1 hides 1/rho vs rho)
             if solver == "Bogus" and (proxg or G or lam or x):
                 continue
             for ex in extras:
